@@ -70,6 +70,12 @@ CLAIMED = {
             "Trusted: pysym translator (validated per run), z3/cvc5 FP theories, element-wise numpy models listed per obligation; "
             "QuantizedTime only for a sweep of concrete durations.",
             "DESIGN.md §1 C10"),
+    "C15": ("CrossHair/z3-driven exhaustive exploration of fault schedules (event type x capability kind x raise point x addon "
+            "behaviour) through the real pump_proxy_event / HippoHTTPFlow take/resume / CapData (de)hydration, counting "
+            "hand-backs and comparing the handed-back state",
+            "Fault enumeration decided path-exhaustively: all 560 schedules are executed on the real code.",
+            "Trusted: CrossHair + z3; in-process queues instead of multiprocessing queues; URLs/bodies concrete.",
+            "DESIGN.md §1 C15"),
     "C16": ("CrossHair/z3-driven exhaustive exploration of cap registration histories (seed grants, temporary, proxy-only, "
             "wrapper; two regions; prefix-related URLs) through the real ProxiedRegion/Session/SessionManager and of all "
             "request/grant subsets through the real Seed request/response rewriting, against a reference model",
